@@ -154,6 +154,20 @@ def check_case(args):
     if auto_timezone is not None:
         kwargs["auto_timezone"] = auto_timezone
 
+    # a third of the examples pass the context arguments positionally, in the documented order
+    # (oh, timezone, country, coords, auto_country, auto_timezone); a pure function of the example, so that replay agrees
+    import zlib
+    positional = zlib.crc32(repr(sorted(ctor.items(), key=lambda kv: kv[0])).encode()) % 3 == 0
+
+    def build(text):
+        if positional:
+            return OpeningHours(text, kwargs.get("timezone"), kwargs.get("country"), kwargs.get("coords"),
+                                True if auto_country is None else auto_country, True if auto_timezone is None else auto_timezone)
+        return OpeningHours(text, **kwargs)
+
+    if positional:
+        label("constructor_called_with_positional_arguments")
+
     # validate(s) is true iff the constructor accepts s
     v = validate(expr)
     STATS["oracle_calls"] += 1
@@ -164,7 +178,7 @@ def check_case(args):
     exp_ctor = ORACLE.ask(op="construct", **ctor)
     STATS["oracle_calls"] += 1
     try:
-        oh = OpeningHours(expr, **kwargs)
+        oh = build(expr)
         raised = None
     except (ParserError, UnknownCountryError, InvalidCoordinatesError) as e:
         oh, raised = None, type(e).__name__
@@ -201,7 +215,7 @@ def check_case(args):
     if str(n) != exp_n:
         raise Violation(f"str(normalize()) = {str(n)!r}, the core gives {exp_n!r}")
     # the printed form is accepted again and prints the same (C06 for the Python forms)
-    again = OpeningHours(s, **kwargs)
+    again = build(s)
     if str(again) != s:
         raise Violation(f"OpeningHours(str(oh)) prints {str(again)!r}, oh prints {s!r}")
 
